@@ -1,7 +1,6 @@
 ---- MODULE FilterChain ----
 (***************************************************************************)
-(* C49 reference: xDS server-side filter chain selection (gRFC A36) for a  *)
-(* listener bound to the wildcard address.                                 *)
+(* C49 reference: xDS server-side filter chain selection (gRFC A36).        *)
 (*                                                                         *)
 (* Abstract addresses are 0..15 plus LO (the loopback address); a prefix   *)
 (* is <<f, a, l>>: family f in {4, 6}, address a, length l in {0, 2, 4}.   *)
@@ -9,8 +8,12 @@
 (* fd00::a/126, l = 4 -> 10.0.0.a/32 or fd00::a/128; LO -> 127.0.0.1, ::1. *)
 (* A chain match is [dst : <<prefix>>, st : "any"|"same"|"ext",            *)
 (* src : <<prefix>>, ports : <<port>>]; an empty sequence = unspecified.   *)
-(* A configuration is [chains : <<match>>, def : BOOLEAN] (def: a default  *)
-(* filter chain is configured).  A lookup is [f, dst, src, port].          *)
+(* A configuration is [chains : <<match>>, def : BOOLEAN, wild : BOOLEAN]  *)
+(* (def: a default filter chain is configured; wild: the listener is bound *)
+(* to the wildcard address.  On a listener bound to a specific address     *)
+(* destination prefixes are not used for matching - every connection has   *)
+(* the same destination - so stage 1 keeps every chain).                   *)
+(* A lookup is [f, dst, src, port].                                        *)
 (***************************************************************************)
 EXTENDS Integers, Sequences, FiniteSets
 CONSTANT Mutant
@@ -34,19 +37,22 @@ PortSpec(c, lk) == IF c.ports = <<>> THEN 0
                    ELSE IF \E i \in 1..Len(c.ports) : c.ports[i] = lk.port THEN 1 ELSE -2
 
 \* the four stages; each keeps the most specific of the remaining chains, without backtracking
-Stage1(cs, lk) == LET D(i) == Spec(cs[i].dst, lk.f, lk.dst)
-                  IN Best({i \in 1..Len(cs) : D(i) > -2}, D)
+Stage1(cs, lk, wild) == LET D(i) == Spec(cs[i].dst, lk.f, lk.dst)
+                        IN IF wild THEN Best({i \in 1..Len(cs) : D(i) > -2}, D) ELSE 1..Len(cs)
 Stage2(cs, lk, S) == LET own == {i \in S : cs[i].st = SrcType(lk)}
                      IN IF own # {} THEN own ELSE {i \in S : cs[i].st = "any"}
 Stage3(cs, lk, S) == LET V(i) == Spec(cs[i].src, lk.f, lk.src)
                      IN Best({i \in S : V(i) > -2}, V)
 Stage4(cs, lk, S) == LET V(i) == PortSpec(cs[i], lk)
                      IN Best({i \in S : V(i) > -2}, V)
-Final(cs, lk) == Stage4(cs, lk, Stage3(cs, lk, Stage2(cs, lk, Stage1(cs, lk))))
+UpTo3(cs, lk, wild) == Stage3(cs, lk, Stage2(cs, lk, Stage1(cs, lk, wild)))
+Final(cs, lk, wild) == Stage4(cs, lk, UpTo3(cs, lk, wild))
 
-\* outcome: index of the chain, 0 = default filter chain, -1 = connection refused (no chain)
-Select(cfg, lk) == LET F == Final(cfg.chains, lk)
-                   IN IF F # {} THEN CHOOSE i \in F : TRUE ELSE IF cfg.def THEN 0 ELSE -1
+\* outcome: index of the chain, 0 = default filter chain, -1 = connection refused (no chain),
+\* -2 = connection refused because several chains tie (possible only on a specific-address listener)
+Select(cfg, lk) == LET F == Final(cfg.chains, lk, cfg.wild)
+                   IN IF Cardinality(F) > 1 THEN -2
+                      ELSE IF F # {} THEN CHOOSE i \in F : TRUE ELSE IF cfg.def THEN 0 ELSE -1
 
 \* two chains tie when they share a complete match tuple
 Keys(ps) == IF ps = <<>> THEN {<<0, 0, 0>>} ELSE {ps[i] : i \in 1..Len(ps)}
@@ -55,8 +61,12 @@ Tuples(c) == Keys(c.dst) \X {c.st} \X Keys(c.src) \X PKeys(c.ports)
 Ambiguous(cfg) == \E i, j \in 1..Len(cfg.chains) : i < j /\ Tuples(cfg.chains[i]) \cap Tuples(cfg.chains[j]) # {}
 Valid(cfg) == ~Ambiguous(cfg) /\ (Len(cfg.chains) > 0 \/ cfg.def)
 
+\* number of destination-prefix entries under which the survivors of the source-prefix stage are
+\* filed (a chain with two destination prefixes is filed under both)
+DstEntries(cfg, lk) == UNION {Keys(cfg.chains[i].dst) : i \in UpTo3(cfg.chains, lk, cfg.wild)}
+
 \* a chain matches a connection on all four criteria
-Matches(c, lk) == /\ Spec(c.dst, lk.f, lk.dst) > -2
+Matches(c, lk, wild) == /\ (wild => Spec(c.dst, lk.f, lk.dst) > -2)
                   /\ c.st \in {"any", SrcType(lk)}
                   /\ Spec(c.src, lk.f, lk.src) > -2
                   /\ PortSpec(c, lk) > -2
